@@ -505,6 +505,30 @@ Section ContextFree.
     = normalize_spec lower nfkc tb ign (firstn i t) ++ normalize_spec lower nfkc tb ign (skipn i t).
   Proof. intros t i H. unfold normalize_spec. apply context_free_gen. exact H. Qed.
 
+  (* the three equations that determine normalize_spec: they read like the property text *)
+  Lemma spec_scan_skip : forall t skip, skip <= length t ->
+    spec_scan lower nfkc tb ign skip t = spec_scan lower nfkc tb ign 0 (skipn skip t).
+  Proof.
+    induction t as [|c t IH]; intros skip H.
+    - cbn [length] in H. assert (skip = 0) by lia. subst. reflexivity.
+    - destruct skip as [|k]; [reflexivity|]. cbn [spec_scan skipn]. apply IH. cbn [length] in H. lia.
+  Qed.
+
+  Lemma spec_unfold :
+    table_wf tb = true ->
+    normalize_spec lower nfkc tb ign [] = []
+    /\ (forall t n v, longest_match tb t = Some (n, v) ->
+          normalize_spec lower nfkc tb ign t = v ++ normalize_spec lower nfkc tb ign (skipn n t))
+    /\ (forall c t, longest_match tb (c :: t) = None ->
+          normalize_spec lower nfkc tb ign (c :: t) = spec_char lower nfkc ign c ++ normalize_spec lower nfkc tb ign t).
+  Proof.
+    intros Hwf. unfold normalize_spec. split; [reflexivity|]. split.
+    - intros t n v E. destruct (longest_match_bounds _ _ _ _ Hwf E) as [H1 H2].
+      destruct t as [|c t]; [cbn in H2; lia|]. cbn [spec_scan]. rewrite E. cbn [length] in H2.
+      rewrite spec_scan_skip by lia. destruct n as [|n]; [lia|]. cbn [skipn]. replace (S n - 1) with n by lia. reflexivity.
+    - intros c t E. cbn [spec_scan]. rewrite E. reflexivity.
+  Qed.
+
   (* a character that occurs in no key separates: what is left and right of it is normalised independently *)
   Definition in_no_key (c : cp) : Prop := forall k v, In (k, v) tb -> ~ In c k.
 
@@ -744,6 +768,9 @@ Fixpoint scan_cut (act : text -> action) (skip : nat) (t : text) (i : nat) : boo
       end
   end.
 
+Lemma scan_cut_0 : forall act skip t, scan_cut act skip t 0 = match skip with O => true | _ => false end.
+Proof. intros. destruct t; reflexivity. Qed.
+
 Lemma scan_complete : forall act t pos skip i off n v,
   scan_cut act skip t i = true -> act (skipn i t) = Some (off, n, v) -> i < length t ->
   In (mkE (pos + i + off) (pos + i + n) v) (scan_edits act pos skip t).
@@ -790,3 +817,87 @@ Proof.
   pose proof (scan_complete _ t 0 0 p _ _ _ Hc Ha Hp) as H. cbn [Nat.add] in H.
   replace (p + 1) with (S p) in H by lia. replace (p + (k + 3)) with (p + k + 3) in H by lia. exact H.
 Qed.
+
+(* every edit of a scan is emitted at a position the scan reaches outside a previous match *)
+Lemma scan_edits_in_cut : forall act t pos skip e, In e (scan_edits act pos skip t) ->
+  exists i off n v, scan_cut act skip t i = true /\ i < length t /\ act (skipn i t) = Some (off, n, v)
+                    /\ e = mkE (pos + i + off) (pos + i + n) v.
+Proof.
+  intros act. induction t as [|c t IH]; intros pos skip e H; cbn [scan_edits] in H; [contradiction|].
+  destruct skip as [|k].
+  - destruct (act (c :: t)) as [[[off n] v]|] eqn:Ha.
+    + destruct H as [<-|H].
+      * exists 0, off, n, v. cbn [scan_cut skipn length]. rewrite Nat.add_0_r. repeat split; auto; lia.
+      * destruct (IH _ _ _ H) as (i & off' & n' & v' & H1 & H2 & H3 & ->).
+        exists (S i), off', n', v'. cbn [scan_cut skipn length]. rewrite Ha.
+        replace (pos + S i) with (S pos + i) by lia. repeat split; auto; lia.
+    + destruct (IH _ _ _ H) as (i & off' & n' & v' & H1 & H2 & H3 & ->).
+      exists (S i), off', n', v'. cbn [scan_cut skipn length]. rewrite Ha.
+      replace (pos + S i) with (S pos + i) by lia. repeat split; auto; lia.
+  - destruct (IH _ _ _ H) as (i & off' & n' & v' & H1 & H2 & H3 & ->).
+    exists (S i), off', n', v'. cbn [scan_cut skipn length].
+    replace (pos + S i) with (S pos + i) by lia. repeat split; auto; lia.
+Qed.
+
+Section PsmMaximal.
+  Variable mark : cp -> bool.
+  Variable sym : text.
+
+  Definition is_mark_at (t : text) (i : nat) : bool :=
+    match nth_error t i with Some c => mark c | None => false end.
+
+  Lemma run_len_0_head : forall t, run_len mark t = 0 -> is_mark_at t 0 = false.
+  Proof.
+    destruct t as [|c t]; [reflexivity|]. unfold is_mark_at. cbn [run_len nth_error].
+    destruct (mark c); [discriminate | reflexivity].
+  Qed.
+
+  (* wherever the scan starts afresh, the characters left and right of that position are not both marks;
+     `skip` > 0 means: we are inside a run that has been matched, and skip is exactly what is left of it *)
+  Lemma psm_cut_left : forall t skip j,
+    (skip = 0 \/ skip = run_len mark t) ->
+    scan_cut (psm_act mark sym) skip t (S j) = true ->
+    is_mark_at t j && is_mark_at t (S j) = false.
+  Proof.
+    induction t as [|c t IH]; intros skip j Hinv Hc; [cbn in Hc; discriminate|].
+    cbn [scan_cut] in Hc.
+    assert (Hstep : forall k, (k = 0 \/ k = run_len mark t) -> (mark c = true -> k = run_len mark t) ->
+                    scan_cut (psm_act mark sym) k t j = true ->
+                    is_mark_at (c :: t) j && is_mark_at (c :: t) (S j) = false).
+    { intros k Hk Hm Hcut. destruct j as [|j].
+      - rewrite scan_cut_0 in Hcut. destruct k; [|discriminate Hcut].
+        unfold is_mark_at at 1. cbn [nth_error]. destruct (mark c) eqn:Ec; [|reflexivity].
+        change (is_mark_at (c :: t) 1) with (is_mark_at t 0). rewrite run_len_0_head; [reflexivity|].
+        symmetry. apply Hm. reflexivity.
+      - change (is_mark_at (c :: t) (S j)) with (is_mark_at t j).
+        change (is_mark_at (c :: t) (S (S j))) with (is_mark_at t (S j)). apply (IH k j Hk Hcut). }
+    destruct skip as [|k].
+    - unfold psm_act in Hc at 1. cbn [run_len] in Hc. destruct (mark c) eqn:Ec.
+      + destruct (2 <=? S (run_len mark t)) eqn:E2.
+        * apply (Hstep (S (run_len mark t) - 1)); [right; lia | intros; lia | exact Hc].
+        * apply Nat.leb_gt in E2. apply (Hstep 0); [left; reflexivity | intros; lia | exact Hc].
+      + cbn [Nat.leb] in Hc. apply (Hstep 0); [left; reflexivity | intros X; discriminate X | exact Hc].
+    - destruct Hinv as [Hinv|Hinv]; [discriminate Hinv|]. cbn [run_len] in Hinv.
+      destruct (mark c) eqn:Ec; [|discriminate Hinv].
+      apply (Hstep k); [right; lia | intros; lia | exact Hc].
+  Qed.
+
+  (* a rewritten run cannot be extended to the left either: it starts the text or follows a non-mark *)
+  Lemma psm_edits_left_maximal : forall t e, In e (psm_edits mark sym t) ->
+    e_start e = 0 \/ exists p, e_start e = S p /\ is_mark_at t p = false.
+  Proof.
+    intros t e H. unfold psm_edits in H.
+    destruct (scan_edits_in_cut _ _ _ _ _ H) as (i & off & n & v & Hc & Hi & Ha & ->).
+    unfold psm_act in Ha. destruct (2 <=? run_len mark (skipn i t)) eqn:E; [|discriminate Ha].
+    inversion Ha as [[Ho Hn Hv]]. subst off n v.
+    cbn [e_start]. rewrite Nat.add_0_r. cbn [Nat.add]. destruct i as [|i]; [left; reflexivity|].
+    right. exists i. split; [reflexivity|].
+    pose proof (psm_cut_left t 0 i (or_introl eq_refl) Hc) as Hl.
+    apply Nat.leb_le in E.
+    assert (Hm : is_mark_at t (S i) = true).
+    { unfold is_mark_at. rewrite <- (Nat.add_0_r (S i)), <- nth_error_skipn'.
+      destruct (skipn (S i) t) as [|d r]; [cbn in E; lia|]. cbn [nth_error]. cbn [run_len] in E.
+      destruct (mark d); [reflexivity | lia]. }
+    rewrite Hm, andb_true_r in Hl. exact Hl.
+  Qed.
+End PsmMaximal.
